@@ -47,6 +47,7 @@ def sessions_for(family, cases):
             for p in cases[i:i + 6]:
                 ops.append({"e": "Main", "p": p})
                 ops.append({"e": "Main", "p": p, "again": True})      # re-run in the same directory
+                ops.append({"e": "Main", "p": p, "inproc": True})     # and from a long-lived process
                 ops.append({"e": "Check", "p": p})
             ss.append({"fam": family, "ops": ops})
     elif family == "hist":
@@ -55,6 +56,8 @@ def sessions_for(family, cases):
     elif family == "pct":
         # one session: file-name collisions are a property of the whole sweep
         ss.append({"fam": family, "ops": [{"e": "Main", "p": p} for p in cases]})
+        # and the same sweep driven from ONE long-lived process (main() called repeatedly)
+        ss.append({"fam": family, "ops": [{"e": "Main", "p": p, "inproc": True} for p in cases]})
     elif family == "freq":
         for p in cases:
             ss.append({"fam": family, "ops": [{"e": "Freq", "p": p}]})
